@@ -27,8 +27,9 @@ ASSUMPTIONS = ["reference table (vmon/props/C06.py:REFERENCE_*) transcribed from
                "QL[,index]; ST,name; T3,1,0,0,0,0,0,0,3 for clearing the accumulators",
                "helpers that are firmware-gated may send the V version probe before their command (legacy layer)",
                "motors_enable on the EBB3 layer may precede the final EM,c1,c2 only by CU,50,0 (exactly one motor "
-               "requested: required), QE (optional) and EM,c2,c2 (only motor 2 requested: optional, at most once); "
-               "the four slot requests of var_write_int32 / var_read_int32 may come in any order"]
+               "requested), QE and EM,c2,c2 (only motor 2 requested and the board reports another resolution), in "
+               "any order that keeps QE before the pre-set; the four slot requests of var_write_int32 / "
+               "var_read_int32 may come in any order"]
 
 INT31 = 2 ** 31 - 1
 
@@ -343,23 +344,21 @@ def compare(helper, ref, got, gated):
     if gated:
         got = [g for g in got if g.upper() != "V"]
     if helper == "motors_enable" and got and isinstance(ref, list) and got != ref:
-        # the documented command is the final EM,c1,c2.  What may precede it is auxiliary and not fixed by
-        # the statement: CU,50,0 (needed, once, exactly when one motor is requested), the QE enquiry (no
-        # effect on the board; zero to two of them, anywhere) and the EM,c2,c2 pre-set of the global
-        # resolution (only when motor 2 alone is requested; at most once; whether it is needed is a matter
-        # of board state, which C16 decides)
-        final = ref[-1]
-        _, c1, c2 = final.split(",")
-        aux = got[:-1]
-        one_motor = c1 != c2 and (c1 == "0" or c2 == "0")
-        preset = "EM,%s,%s" % (c2, c2)
-        aux_ok = got[-1] == final \
-            and aux.count("CU,50,0") == (1 if one_motor else 0) \
-            and aux.count("QE") <= 2 \
-            and aux.count(preset) <= (1 if (c1 == "0" and c2 != "0") else 0) \
-            and all(a in ("CU,50,0", "QE", preset) for a in aux)
+        # the documented command is the final EM,c1,c2; the auxiliaries (CU,50,0 / QE / EM,c2,c2) may come
+        # in any order as long as EM,c2,c2 - which depends on the QE answer - does not precede QE.  WHICH
+        # auxiliaries are sent is fixed ("and nothing else"): a pre-set EM,c2,c2 that the board's reported
+        # resolution does not call for re-energises motor 1 for nothing (seed C06-3), and is reported.
+        aux_ok = sorted(got[:-1]) == sorted(ref[:-1]) and got[-1] == ref[-1]
+        if aux_ok and "QE" in got:
+            pre = [g for g in got[:-1] if g.startswith("EM,")]
+            aux_ok = all(got.index(g) > got.index("QE") for g in pre)
         if aux_ok:
             return None
+    if helper == "write_nickname" and isinstance(ref, list) and got != ref and [g for g in got if g != "QT"] == ref:
+        # the nickname helpers are C16's (they are not among this property's anchors): what is decided here is
+        # that the documented ST text goes out, once; reading the name back afterwards (QT changes nothing on
+        # the board) is not reported
+        return None
     if helper in ("var_write_int32", "var_read_int32") and isinstance(ref, list) and sorted(got) == sorted(ref):
         # four single-slot requests; the order in which the four slots are visited is not documented
         return None
